@@ -30,3 +30,21 @@ NOPRINT = []   # filled below: ResultPrint methods are replaced by empty stubs (
 def U_kern(name='kern', buf=2, hbuf=2, extra=()):
     return Unit(name, 'kern_shim.cpp', defines=['WENCRY_VERIF_BUF_SZ=%d' % buf, 'WENCRY_VERIF_HBUF_SZ=%d' % hbuf], extra_srcs=KERN_SRCS, ir2c_args=list(extra))
 KERN_ENVS = ['env_heap.c', 'env_cxx.c', 'env_file.c', 'env_io.c', 'env_sync_seq.c']
+
+STUB_PIPE = ['--replace', '_ZN15multicry_master12run_multicryEPP7AesmodeRKSt8functionIFvNSt7__cxx1112basic_stringIcSt11char_traitsIcESaIcEEEmEE=stub_run_multicry']
+STUB_KEYS = ['--replace', '_ZN9aeshandle9keyhandleC2EPKh=stub_keyhandle']
+def U_kern_gate(): return U_kern('kern_gate', extra=UF_HASH + STUB_PIPE + STUB_KEYS)
+NATIVE_FILE_ENVS = ['env_native.c', 'env_native_file.c']
+
+def gate_obligations(r, tier, lens, prefix='', ops=('decrypt', 'verify'), threads=(1,)):
+    """the verify/decrypt gate over arbitrary byte strings of each length in lens (used by C05, C06, C11)"""
+    u, ureal = U_kern_gate(), U_kern('kern')
+    T = 300 if tier == 'quick' else 1800
+    for n in lens:
+        for op in ops:
+            for th in threads:
+                hts = (None,) if n < 10 else (0, 1, 2, 3, 127, 128, 255)
+                for ht in hts:
+                    d = ['H_GATE', 'FLEN=%d' % n, 'THREADS=%d' % th, 'SREF_MSGMAX=%d' % (n + 8)] + (['OP_VERIFY'] if op == 'verify' else []) + ([] if ht is None else ['HTFIX=%d' % ht])
+                    r.add(Ob('%sgate-%s-len%d-T%d%s' % (prefix, op, n, th, '' if ht is None else '-h%s' % ht), 'h_verify.c', [u], defines=d,
+                             unwind=max(400, n + 130), timeout=T, envs=KERN_ENVS, replay_units=[ureal], replay_envs=NATIVE_FILE_ENVS, cbmc_extra=['--max-field-sensitivity-array-size', '256']))
